@@ -7,6 +7,7 @@
    the label.  Equal channel counts upstream and downstream (the "same mapping" mode).  Shared by C01-C04. *)
 From Coq Require Import List String NArith ZArith Bool.
 From Verif Require Import Base.Util.
+From Verif Require C16.Model C16.Manager.
 Import ListNotations.
 Local Open Scope string_scope.
 Local Open Scope N_scope.
@@ -42,6 +43,8 @@ Record trec := { t_tcoll : Z; t_name : string; t_tvch : string; t_tpch : string;
                  t_barw : bool;                        (* this shard has written its collection drop signal *)
                  t_pbars : list (Z * bool) }.          (* source partition id -> signal written? (barrier registered) *)
 Record handler := { h_src : string; h_tgt : string; h_recs : list (Z * trec) }.
+(* a shard registered on a handler that has no downstream channel yet: mapping key, collection, record *)
+Record wshard := { ws_key : string; ws_coll : Z; ws_rec : trec }.
 Record clock := { cts : N; lts : N; gate : bool }.
 Record bar := { b_dest : nat; b_got : nat; b_ts : N; b_done : bool }.
 
@@ -56,6 +59,8 @@ Record st := {
   keymap : list (Z * string);                          (* sourcePChannelKeyMap: (collection, source channel) recorded at handler creation *)
   out : list epack; events : list event;
   alive : bool;
+  mg : Manager.mgr;                                    (* the manager's channel mapping, reservations, waiting handlers (C16.Manager) *)
+  wsh : list wshard;                                   (* shards whose handler waits for a downstream channel *)
 }.
 
 Definition zmem (x : Z) (l : list Z) : bool := existsb (Z.eqb x) l.
@@ -161,7 +166,7 @@ Definition with_st (a : acc) (s : st) : acc :=
 
 Definition upd_state (s : st) (dc dp : list Z) (hp : list (nat * pmap)) (cb : list (Z * bar)) (pb : list (Z * Z * bar)) (ev : list event) : st :=
   {| dcolls := dc; dparts := dp; handlers := handlers s; clocks := clocks s; heap := hp; cbars := cb; pbars := pb;
-     pbar_handlers := pbar_handlers s; keymap := keymap s; out := out s; events := ev; alive := alive s |}.
+     pbar_handlers := pbar_handlers s; keymap := keymap s; out := out s; events := ev; alive := alive s; mg := mg s; wsh := wsh s |}.
 
 Definition pbar_key_eqb (a : Z * Z) (c p : Z) : bool := Z.eqb (fst a) c && Z.eqb (snd a) p.
 Definition pbar_get (s : st) (c p : Z) : option bar :=
@@ -263,14 +268,14 @@ Definition one_msg (retries : nat) (a : acc) (m : smsg) : cres :=
         else match zlookup (h_recs (a_h a)) c0 with
              | None => CErr {| dcolls := dcolls s; dparts := dparts s; handlers := handlers s; clocks := clocks s; heap := heap s;
                                cbars := cbars s; pbars := pbars s; pbar_handlers := pbar_handlers s; keymap := keymap s; out := out s;
-                               events := (events s ++ [EvErr true])%list; alive := alive s |}
+                               events := (events s ++ [EvErr true])%list; alive := alive s; mg := mg s; wsh := wsh s |}
              | Some r =>
                  let a := {| a_st := a_st a; a_h := a_h a; a_first := a_first a; a_out := a_out a; a_need := a_need a; a_fwd := a_fwd a;
                              a_ans := a_ans a; a_cname := t_name r |} in
                  let err (a' : acc) := let s' := a_st a' in
                      CErr {| dcolls := dcolls s'; dparts := dparts s'; handlers := set_handler s' (a_h a'); clocks := clocks s'; heap := heap s';
                              cbars := cbars s'; pbars := pbars s'; pbar_handlers := pbar_handlers s'; keymap := keymap s'; out := out s';
-                             events := (events s' ++ [EvErr true])%list; alive := alive s' |} in
+                             events := (events s' ++ [EvErr true])%list; alive := alive s'; mg := mg s'; wsh := wsh s' |} in
                  match m_kind m with
                  | KInsert =>
                      if t_dropped r then COk a
@@ -344,7 +349,7 @@ Fixpoint all_msgs (retries : nat) (a : acc) (l : list smsg) : cres :=
 Definition clock_of (s : st) (ch : string) : clock := match alookup (clocks s) ch with Some c => c | None => {| cts := 0; lts := 0; gate := false |} end.
 Definition set_clock (s : st) (ch : string) (c : clock) : st :=
   {| dcolls := dcolls s; dparts := dparts s; handlers := handlers s; clocks := aupsert (clocks s) ch c; heap := heap s; cbars := cbars s;
-     pbars := pbars s; pbar_handlers := pbar_handlers s; keymap := keymap s; out := out s; events := events s; alive := alive s |}.
+     pbars := pbars s; pbar_handlers := pbar_handlers s; keymap := keymap s; out := out s; events := events s; alive := alive s; mg := mg s; wsh := wsh s |}.
 
 Definition retime (e : emsg) (t : N) : emsg :=
   {| e_kind := e_kind e; e_id := e_id e; e_coll := e_coll e; e_part := e_part e; e_pname := e_pname e; e_shard := e_shard e;
@@ -387,7 +392,7 @@ Definition emit (s : st) (ch : string) (label : Z * string * string) (begin e : 
                  ep_poschan := ch; ep_endposts := e2; ep_msgs := body |} in
     let s1 := set_clock s ch c3 in
     {| dcolls := dcolls s1; dparts := dparts s1; handlers := handlers s1; clocks := clocks s1; heap := heap s1; cbars := cbars s1;
-       pbars := pbars s1; pbar_handlers := pbar_handlers s1; keymap := keymap s1; out := (out s1 ++ [pk])%list; events := events s1; alive := alive s1 |}.
+       pbars := pbars s1; pbar_handlers := pbar_handlers s1; keymap := keymap s1; out := (out s1 ++ [pk])%list; events := events s1; alive := alive s1; mg := mg s1; wsh := wsh s1 |}.
 
 (* the same in the two sections the code takes it in - before the channel lock: S2a / S2b, the pack is shifted above the
    channel's time and the channel's time is raised; under the channel lock: S3 (shifted again if a tick overtook it), the closing
@@ -422,7 +427,7 @@ Definition emit23 (s : st) (ch : string) (label : Z * string * string) (pend : l
                  ep_poschan := ch; ep_endposts := e2; ep_msgs := body |} in
     let s1 := set_clock s ch c3 in
     {| dcolls := dcolls s1; dparts := dparts s1; handlers := handlers s1; clocks := clocks s1; heap := heap s1; cbars := cbars s1;
-       pbars := pbars s1; pbar_handlers := pbar_handlers s1; keymap := keymap s1; out := (out s1 ++ [pk])%list; events := events s1; alive := alive s1 |}.
+       pbars := pbars s1; pbar_handlers := pbar_handlers s1; keymap := keymap s1; out := (out s1 ++ [pk])%list; events := events s1; alive := alive s1; mg := mg s1; wsh := wsh s1 |}.
 
 (* ---- barriers firing (the barrier goroutines), run to completion after every label ---- *)
 Definition fire_cbars (s : st) : st :=
@@ -433,7 +438,7 @@ Definition fire_cbars (s : st) : st :=
       let hs := map (fun h => if existsb (fun k => Z.eqb (fst k) c && String.eqb (snd k) (h_src h)) (keymap s) then del_rec h c else h) (handlers s) in
       {| dcolls := (dcolls s ++ [c])%list; dparts := dparts s; handlers := hs; clocks := clocks s; heap := heap s;
          cbars := zremove (cbars s) c; pbars := pbars s; pbar_handlers := pbar_handlers s; keymap := keymap s; out := out s;
-         events := (events s ++ [EvDropColl c (b_ts b)])%list; alive := alive s |}
+         events := (events s ++ [EvDropColl c (b_ts b)])%list; alive := alive s; mg := mg s; wsh := wsh s |}
     else s) (cbars s) s.
 
 Definition fire_pbars (s : st) : st :=
@@ -443,7 +448,7 @@ Definition fire_pbars (s : st) : st :=
     then {| dcolls := dcolls s; dparts := (dparts s ++ [p])%list; handlers := handlers s; clocks := clocks s; heap := heap s;
             cbars := cbars s; pbars := pbar_set (pbars s) c p {| b_dest := b_dest b; b_got := b_got b; b_ts := b_ts b; b_done := true |};
             pbar_handlers := pbar_handlers s; keymap := keymap s; out := out s;
-            events := (events s ++ [EvDropPart c p (b_ts b)])%list; alive := alive s |}
+            events := (events s ++ [EvDropPart c p (b_ts b)])%list; alive := alive s; mg := mg s; wsh := wsh s |}
     else s) (pbars s) s.
 
 (* ---- labels ---- *)
@@ -467,24 +472,73 @@ Inductive label :=
 | AddPart (c : Z) (pid : Z) (pname : string) (target_has : bool)
 | Feed (c : Z) (cname : string) (spch : string) (p : spack) (answers : list (option pmap))
 | MarkDropped (cs : list Z)
-| StopColl (c : Z) (spchs : list string).
+| StopColl (c : Z) (spchs : list string)
+| Config (ns nt : N).                 (* the channel counts the manager is created with (before anything is started); default 0 and 0: one-to-one *)
+
+(* ---- the manager's assignment of downstream channels (C16.Manager), as far as the reader's state depends on it ----
+   Equal channel counts or more source than downstream channels: the mapping key is the source channel. *)
+Definition with_mg (s : st) (g : Manager.mgr) (w : list wshard) : st :=
+  {| dcolls := dcolls s; dparts := dparts s; handlers := handlers s; clocks := clocks s; heap := heap s; cbars := cbars s; pbars := pbars s;
+     pbar_handlers := pbar_handlers s; keymap := keymap s; out := out s; events := events s; alive := alive s; mg := g; wsh := w |}.
+
+(* a handler starts reading: its record list, its downstream channel, the channel's clock entry (InitTSInfo) *)
+Definition start_handler (s : st) (src tgt : string) (recs : list (Z * trec)) : st :=
+  let h := {| h_src := src; h_tgt := tgt; h_recs := recs |} in
+  let ck := match alookup (clocks s) tgt with
+            | Some k => {| cts := cts k; lts := lts k; gate := true |}
+            | None => {| cts := 0; lts := 0; gate := true |} end in
+  {| dcolls := dcolls s; dparts := dparts s; handlers := (handlers s ++ [h])%list; clocks := aupsert (clocks s) tgt ck; heap := heap s;
+     cbars := cbars s; pbars := pbars s; pbar_handlers := pbar_handlers s; keymap := keymap s;
+     out := out s; events := events s; alive := alive s; mg := mg s; wsh := wsh s |}.
 
 Definition add_shard (s : st) (c : collinfo) (ref : nat) (sh : shard) : st :=
   let r := {| t_tcoll := ci_tid c; t_name := ci_name c; t_tvch := sh_tvch sh; t_tpch := sh_tpch sh; t_parts := ref;
               t_dropped := ci_dropped c; t_dropping := []; t_barw := false; t_pbars := [] |} in
-  match hlookup s (sh_spch sh) with
+  let g := mg s in
+  let k := C16.Model.key (Manager.g_cm g) (sh_spch sh) (sh_tpch sh) in
+  let g1 := Manager.offer_step Manager.cfg_now g (sh_spch sh) (sh_tpch sh) in
+  match hlookup s k with
   | Some h =>
+      (* the handler reads already: the collection is added to it (and a differing downstream channel is forwarded, see g1) *)
       {| dcolls := dcolls s; dparts := dparts s; handlers := set_handler s (set_rec h (ci_id c) r); clocks := clocks s; heap := heap s;
-         cbars := cbars s; pbars := pbars s; pbar_handlers := pbar_handlers s; keymap := keymap s; out := out s; events := events s; alive := alive s |}
+         cbars := cbars s; pbars := pbars s; pbar_handlers := pbar_handlers s; keymap := keymap s; out := out s; events := events s; alive := alive s;
+         mg := g1; wsh := wsh s |}
   | None =>
-      let h := {| h_src := sh_spch sh; h_tgt := sh_tpch sh; h_recs := [(ci_id c, r)] |} in
-      let ck := match alookup (clocks s) (sh_tpch sh) with
-                | Some k => {| cts := cts k; lts := lts k; gate := true |}
-                | None => {| cts := 0; lts := 0; gate := true |} end in
-      {| dcolls := dcolls s; dparts := dparts s; handlers := (handlers s ++ [h])%list; clocks := aupsert (clocks s) (sh_tpch sh) ck; heap := heap s;
-         cbars := cbars s; pbars := pbars s; pbar_handlers := pbar_handlers s; keymap := (keymap s ++ [(ci_id c, sh_spch sh)])%list;
-         out := out s; events := events s; alive := alive s |}
+      if Manager.has_handler g k
+      then (* the key's handler waits for a channel: AddCollection blocks until it starts *)
+        with_mg s g1 (wsh s ++ [{| ws_key := k; ws_coll := ci_id c; ws_rec := r |}])%list
+      else
+        let s1 := {| dcolls := dcolls s; dparts := dparts s; handlers := handlers s; clocks := clocks s; heap := heap s;
+                     cbars := cbars s; pbars := pbars s; pbar_handlers := pbar_handlers s; keymap := (keymap s ++ [(ci_id c, sh_spch sh)])%list;
+                     out := out s; events := events s; alive := alive s; mg := g1; wsh := wsh s |} in
+        match alookup (C16.Model.tbl (Manager.g_cm g1)) k with
+        | Some _ => start_handler s1 k (sh_tpch sh) [(ci_id c, r)]                      (* assigned at once *)
+        | None => with_mg s1 g1 (wsh s ++ [{| ws_key := k; ws_coll := ci_id c; ws_rec := r |}])%list   (* the downstream channel is full: the handler waits *)
+        end
   end.
+
+(* the goroutines of the manager run to quiescence after the offers of a collection: reservations, rendezvous, waiting handlers
+   taking their channel.  With at most one waiting handler and one pending forward at a time (the scripts of the harness) the order
+   does not matter; the model takes the first enabled step *)
+Fixpoint settle_mg (fuel : nat) (g : Manager.mgr) : Manager.mgr :=
+  match fuel with
+  | O => g
+  | S f => match Manager.taus Manager.cfg_now g with [] => g | g' :: _ => settle_mg f g' end
+  end.
+(* waiting handlers that have been given a channel start reading with the shards queued on them *)
+Definition materialise (s : st) : st :=
+  let g := mg s in
+  let keys := fold_left (fun acc w => if mem_str (ws_key w) acc then acc else (acc ++ [ws_key w])%list) (wsh s) [] in
+  fold_left (fun s k =>
+    match alookup (C16.Model.tbl (Manager.g_cm g)) k, Manager.find_handler g k with
+    | Some _, Some mh =>
+        let mine := filter (fun w => String.eqb (ws_key w) k) (wsh s) in
+        let rest := filter (fun w => negb (String.eqb (ws_key w) k)) (wsh s) in
+        let s1 := start_handler s k (Manager.h_tgt mh) (fold_left (fun l w => zupsert l (ws_coll w) (ws_rec w)) mine []) in
+        with_mg s1 (mg s1) rest
+    | _, _ => s
+    end) keys s.
+Definition settle (s : st) : st := materialise (with_mg s (settle_mg 64 (mg s)) (wsh s)).
 
 Definition step (retries : nat) (s : st) (l : label) : st :=
   let s' :=
@@ -500,8 +554,8 @@ Definition step (retries : nat) (s : st) (l : label) : st :=
                    let ref := fresh_ref (heap s) in
                    let s1 := {| dcolls := dcolls s; dparts := dparts s; handlers := handlers s; clocks := clocks s; heap := (heap s ++ [(ref, ci_parts c)])%list;
                                 cbars := zupsert (cbars s) (ci_id c) {| b_dest := List.length shards; b_got := O; b_ts := 0; b_done := false |};
-                                pbars := pbars s; pbar_handlers := pbar_handlers s; keymap := keymap s; out := out s; events := events s; alive := alive s |} in
-                   fold_left (fun s sh => add_shard s c ref sh) shards s1
+                                pbars := pbars s; pbar_handlers := pbar_handlers s; keymap := keymap s; out := out s; events := events s; alive := alive s; mg := mg s; wsh := wsh s |} in
+                   settle (fold_left (fun s sh => add_shard s c ref sh) shards s1)
                end
            end
   | AddPart c pid pname target_has =>
@@ -532,7 +586,7 @@ Definition step (retries : nat) (s : st) (l : label) : st :=
                                                                 end
                                                | None => h end) (handlers s) in
                       {| dcolls := dcolls s; dparts := dparts s; handlers := hs'; clocks := clocks s; heap := heap s; cbars := cbars s; pbars := pb;
-                         pbar_handlers := (pbar_handlers s ++ [((c, pid), map h_src hs)])%list; keymap := keymap s; out := out s; events := ev; alive := alive s |}
+                         pbar_handlers := (pbar_handlers s ++ [((c, pid), map h_src hs)])%list; keymap := keymap s; out := out s; events := ev; alive := alive s; mg := mg s; wsh := wsh s |}
                   end
             end
         end
@@ -545,11 +599,11 @@ Definition step (retries : nat) (s : st) (l : label) : st :=
           let a0 := {| a_st := s0; a_h := h; a_first := None; a_out := []; a_need := false; a_fwd := None; a_ans := answers; a_cname := "" |} in
           match all_msgs retries a0 (sort_msgs (p_msgs p)) with
           | CErr s1 => {| dcolls := dcolls s1; dparts := dparts s1; handlers := handlers s1; clocks := clocks s1; heap := heap s1; cbars := cbars s1;
-                          pbars := pbars s1; pbar_handlers := pbar_handlers s1; keymap := keymap s1; out := out s1; events := events s1; alive := alive s1 |}
+                          pbars := pbars s1; pbar_handlers := pbar_handlers s1; keymap := keymap s1; out := out s1; events := events s1; alive := alive s1; mg := mg s1; wsh := wsh s1 |}
           | COk a =>
               let s1 := a_st a in
               let s1 := {| dcolls := dcolls s1; dparts := dparts s1; handlers := set_handler s1 (a_h a); clocks := clocks s1; heap := heap s1; cbars := cbars s1;
-                           pbars := pbars s1; pbar_handlers := pbar_handlers s1; keymap := keymap s1; out := out s1; events := events s1; alive := alive s1 |} in
+                           pbars := pbars s1; pbar_handlers := pbar_handlers s1; keymap := keymap s1; out := out s1; events := events s1; alive := alive s1; mg := mg s1; wsh := wsh s1 |} in
               let lab_coll := (c, cname, spch) in
               match a_fwd a with
               | Some tgt =>
@@ -561,7 +615,7 @@ Definition step (retries : nat) (s : st) (l : label) : st :=
                       emit s2 tgt fl begin (p_end p) (sort_emsgs (a_out a)) (existsb (fun e => mkind_eqb (e_kind e) KDropColl) (a_out a))
                   | None => {| dcolls := dcolls s1; dparts := dparts s1; handlers := handlers s1; clocks := clocks s1; heap := heap s1; cbars := cbars s1;
                                pbars := pbars s1; pbar_handlers := pbar_handlers s1; keymap := keymap s1; out := out s1;
-                               events := (events s1 ++ [EvErr true])%list; alive := alive s1 |}
+                               events := (events s1 ++ [EvErr true])%list; alive := alive s1; mg := mg s1; wsh := wsh s1 |}
                   end
               | None => emit s1 (h_tgt h) lab_coll begin (p_end p) (map (fun e => {| e_kind := e_kind e; e_id := e_id e; e_coll := e_coll e; e_part := e_part e;
                                                                                       e_pname := e_pname e; e_shard := e_shard e; e_poschan := e_poschan e;
@@ -571,19 +625,24 @@ Definition step (retries : nat) (s : st) (l : label) : st :=
       end
   | MarkDropped cs =>
       {| dcolls := (dcolls s ++ cs)%list; dparts := dparts s; handlers := handlers s; clocks := clocks s; heap := heap s; cbars := cbars s; pbars := pbars s;
-         pbar_handlers := pbar_handlers s; keymap := keymap s; out := out s; events := events s; alive := alive s |}
+         pbar_handlers := pbar_handlers s; keymap := keymap s; out := out s; events := events s; alive := alive s; mg := mg s; wsh := wsh s |}
+  | Config ns nt =>
+      match handlers s, wsh s, Manager.g_hs (mg s) with
+      | [], [], [] => with_mg s (Manager.init ns nt) []
+      | _, _, _ => s
+      end
   | StopColl c spchs =>
       let hs := map (fun h => if existsb (String.eqb (h_src h)) spchs && existsb (fun k => Z.eqb (fst k) c && String.eqb (snd k) (h_src h)) (keymap s)
                               then del_rec h c else h) (handlers s) in
       {| dcolls := dcolls s; dparts := dparts s; handlers := hs; clocks := clocks s; heap := heap s; cbars := zremove (cbars s) c;
          pbars := filter (fun x => negb (Z.eqb (fst (fst x)) c)) (pbars s); pbar_handlers := pbar_handlers s; keymap := keymap s;
-         out := out s; events := events s; alive := alive s |}
+         out := out s; events := events s; alive := alive s; mg := mg s; wsh := wsh s |}
   end in
   fire_pbars (fire_cbars s').
 
 Definition init : st :=
   {| dcolls := []; dparts := []; handlers := []; clocks := []; heap := []; cbars := []; pbars := []; pbar_handlers := []; keymap := [];
-     out := []; events := []; alive := true |}.
+     out := []; events := []; alive := true; mg := Manager.init 0 0; wsh := [] |}.
 Definition run (retries : nat) (ls : list label) : st := fold_left (step retries) ls init.
 
 (* ---- cases: what the harness observed (final output queues in arrival order, the events) ---- *)
